@@ -1013,7 +1013,11 @@ func (e *c01Env) keySet(caseNo *int, foreign gen.KeyPair) {
 			k.KeyType, k.Scheme, k.KeyVal.Public = "rsa", "rsassa-pss-sha256", otherEc.Pub.KeyVal.Public
 			return k
 		}()}, false},
-		{"both-keys-unusable", map[string]intoto.Key{k1.Pub.KeyID: func() intoto.Key { k := k1.Pub; k.KeyVal.Public = "00"; return k }(), k2.Pub.KeyID: func() intoto.Key { k := k2.Pub; k.KeyVal.Public = "-----BEGIN PUBLIC KEY-----\nAAAA\n-----END PUBLIC KEY-----\n"; return k }()}, false},
+		{"both-keys-unusable", map[string]intoto.Key{k1.Pub.KeyID: func() intoto.Key { k := k1.Pub; k.KeyVal.Public = "00"; return k }(), k2.Pub.KeyID: func() intoto.Key {
+			k := k2.Pub
+			k.KeyVal.Public = "-----BEGIN PUBLIC KEY-----\nAAAA\n-----END PUBLIC KEY-----\n"
+			return k
+		}()}, false},
 	}
 	// key objects that also carry a certificate: the public part is the key, the certificate is not
 	if ca, cerr := gen.NewCA(gen.CertSpec{CN: "c01-ca"}, nil); cerr == nil {
